@@ -13,6 +13,7 @@ import os
 import re
 
 from ..facts import AnalysisBroken, short
+from ..paths import path, root_var_id
 from ..effects import fields_read_transitively
 from .. import formula as F
 from .. import witness, extract
@@ -74,6 +75,7 @@ def eval_formula(f, x, y, d, v):
 
 def check(ctx):
     ctx.rule('C18.L', 'algebraic laws of ==, < and hash over all orderings of three ids')
+    ctx.rule('C18.I', 'no AnyId constructor leaves the digest indeterminate')
     ctx.rule('C18.D', 'digests reach the comparisons unconverted')
     ctx.rule('C18.V', 'the converting constructor stores the value it digested')
     ctx.rule('C18.W', 'AnyId selects the hashed map')
@@ -88,6 +90,22 @@ def check(ctx):
                 reads = {r for r in reads if r in ('digest', 'value')}
                 ctx.ob('C18.L', f, 'std::hash<AnyId> reads only the digest (ids that compare equal have equal digests, hence equal hashes)',
                        reads == {'digest'}, detail='fields read: %s' % sorted(reads))
+    # the hash is a function of the digest's *value* (ids that compare equal have equal digest values, e.g. +0.0 and -0.0): MakeHash may
+    # convert the value or hand it to std::hash, but must not look at its object representation (address-of, bit casts, memcpy)
+    for tu in ctx.tus:
+        for f in tu.fns:
+            if f.skey.startswith('anyid_internal_::MakeHash') and f.name == 'operator()' and f.params:
+                pid = f.params[0]['id']
+                bad = []
+                for n, o in f.nodes.items():
+                    if o['cls'] == 'UnaryOperator' and o.get('op') == '&':
+                        if root_var_id(path(f, f.kids(n)[0], resolve_refs=False)) == pid:
+                            bad.append('address of the digest taken at %s' % f.nloc(n))
+                    if o['cls'] in ('CXXReinterpretCastExpr',) or o.get('ck') in ('BitCast', 'LValueBitCast'):
+                        if any(f.nodes[d]['cls'] == 'DeclRefExpr' and f.decl(d).get('id') == pid for d in f.descendants(n)):
+                            bad.append('bit cast of the digest at %s' % f.nloc(n))
+                ctx.ob('C18.L', f, 'the hash is computed from the digest\'s value, not from its object representation', not bad,
+                       detail='; '.join(bad), key_detail='hash from representation')
     # digests are compared as what the digester returned: a value-changing conversion on the way to the comparison (e.g. a helper taking
     # std::size_t when the digester returns double) makes operator< coarser than operator==, which still compares the real digests
     NUMERIC = ('IntegralCast', 'FloatingToIntegral', 'IntegralToFloating', 'FloatingCast', 'IntegralToBoolean', 'FloatingToBoolean')
@@ -103,6 +121,12 @@ def check(ctx):
                 ctx.ob('C18.D', g, 'the digests are compared in the digester\'s own result type (no value-changing conversion first)', not bad,
                        detail='; '.join(bad[:3]), key_detail='digest converted')
     ctx.require_min('C18.D', 2)
+    # every AnyId constructor - the default one included, in whatever form it is written - leaves the digest definite: the
+    # default-constructed id is a key like any other (equal to itself, hashing like itself)
+    from .c20 import check_init
+    for tu in ctx.tus:
+        check_init(ctx, tu, rule='C18.I', only=('AnyId::AnyId',))
+    ctx.require_min('C18.I', 2)
     # the constructor digests the value and then stores it: the value stored is the one supplied only if nothing consumed it in
     # between (a forwarding constructor that forwards twice stores a moved-from value whenever the digester takes by value)
     from ..moves import MoveAnalysis
